@@ -11,5 +11,7 @@ CONSTANTS
   AllowEnd = FALSE
   MaxRequery = 1
   FixCommitState = TRUE
+  SeqSMP = FALSE
+  FixSMPReset = FALSE
 INVARIANTS RequeryLosesNothing
 CHECK_DEADLOCK FALSE
